@@ -12,7 +12,8 @@ from ..runner import Part, Violation, Skip
 LEVEL = "exploration"
 ASSUMPTIONS = [
     "the default is computed from the specification value by vf/defaults.py exactly as the property words it",
-    "specifications with flatten() are not generated: the property defines the default only for split ranks",
+    "the canonical default is defined by the property for split ranks only; for flatten() (part flatten-read-back) the default the "
+    "compiler chose is read back from the IR and written out: idempotence, not a canonical value",
 ]
 
 
@@ -134,4 +135,58 @@ class Main(Part):
                             sig="differs:" + wa.split(" ")[0], details={"yaml": S.to_yaml(spec), "omitted": a, "explicit": b})
 
 
-PARTS = [Main()]
+class FlattenReadBack(Part):
+    """
+    For flatten() the property does not say where the flattened rank goes in the default loop order, so no canonical default
+    can be written down independently.  What it does say still applies: omitting the loop order is the same as writing the
+    default explicitly - whatever default the compiler chose (read back from Program.get_loop_order()), writing exactly that
+    must give the same text; and (1)/(3) hold as for every other specification.
+    """
+    name = "flatten-read-back"
+    rule = ("flattening specifications (static, below a shape split, below an occupancy split) with rank-order and loop-order "
+            "omitted: the loop order the compiler chose is read back from the IR of every Einsum and written out explicitly; the "
+            "emitted text must be identical; also rank-order omitted vs declared order written out. Non-trivial = >= 2 loop ranks.")
+
+    def budget(self, tier):
+        return {"quick": dict(examples=120, shards=2, seconds=60),
+                "thorough": dict(examples=1500, shards=8, seconds=400)}[tier]
+
+    def strategy(self, tier):
+        return gen.case_flat(max_extent=3)
+
+    def describe(self, case):
+        return {"yaml": S.to_yaml(case["spec"])}
+
+    def run_case(self, case):
+        from .. import execute as X
+        from teaal.parse import Einsum, Mapping
+        from teaal.ir.program import Program
+        base = copy.deepcopy(case["spec"])
+        base["rank_order"], base["loop_order"], base["spacetime"] = {}, {}, {}
+        t_omitted = str(oracle.compile_or_skip(base, metrics=False))
+        y = S.to_yaml(base)
+        chosen = {}
+        try:
+            prog = Program(Einsum.from_str(y), Mapping.from_str(y))
+            for i, e in enumerate(base["exprs"]):
+                prog.add_einsum(i)
+                chosen[S.out_name(e)] = list(prog.get_loop_order().get_ranks())
+                prog.reset()
+        except ValueError as ex:
+            raise Skip("rejected_by_compiler", str(ex)[:80])
+        s2 = copy.deepcopy(base)
+        s2["loop_order"] = {k: v for k, v in chosen.items() if v}
+        try:
+            t2 = str(X.compile_spec(s2, False))
+        except X.Rejected as r:
+            raise Violation("the loop order the compiler chooses when none is given (%r) is refused when written out: %s" % (chosen, r),
+                            sig="default-refused", details={"yaml": S.to_yaml(s2)})
+        Main._same(self, t_omitted, t2, "loop-order omitted", "the chosen default %r written out" % (chosen,), s2)
+        s1 = copy.deepcopy(base)
+        s1["rank_order"] = defaults.default_rank_order(base)
+        t1 = str(oracle.compile_or_skip(s1, metrics=False))
+        Main._same(self, t_omitted, t1, "rank-order omitted", "declared rank order written out", s1)
+        return {"nontrivial": any(len(v) >= 2 for v in chosen.values()), "classes": ["family=flat"]}
+
+
+PARTS = [Main(), FlattenReadBack()]
